@@ -33,7 +33,7 @@ def handle (op : String) (args : List String) : Option String :=
   | "c04.header" => do
       let bs ← run pBytes args
       pure (resStr (fun (p : Header × Bytes) => headerStr p.1 ++ s!" rest {p.2.length}") (parseHeader bs))
-  | "c04.holds.roundtrip" | "c04.holds.pointcloud_index_buffer_witness" | "c04.holds.alpha_next_to_color_witness" => do
+  | "c04.holds.roundtrip" | "c04.holds.pointcloud_index_buffer_witness" => do
       let (cfg, m, back) ← run (do let c ← pCfg; let m ← pMesh; let b ← pOkMesh; pure (c, m, b)) args
       pure (boolStr (RoundTrips codingF cfg m back))
   | "c04.holds.header_describes" => do
